@@ -6,6 +6,7 @@ import SJ.Props.C13Raw
 import SJ.Props.C13Kind
 import SJ.Props.C13Stream
 import SJ.Props.TypedFaultBound
+import SJ.Props.C13Threaded
 #print axioms SJ.Props.C13.c13_read
 #print axioms SJ.Props.C13.c13_read_error_class
 #print axioms SJ.Props.Typed.c13_typed_fault
@@ -36,3 +37,6 @@ import SJ.Props.TypedFaultBound
 #print axioms SJ.Props.C13Stream.c13_stream_io_once
 #print axioms SJ.Props.C13Stream.c13_stream_error_once
 #print axioms SJ.Props.TypedFaultBound.c13_typed_fault_bounded
+#print axioms SJ.Props.C13.c13_writer_threaded
+#print axioms SJ.Props.C13.c13_writer_threaded_sub
+#print axioms SJ.Props.C13.c13_writer_threaded_ok
